@@ -21,3 +21,5 @@ def run(prog, rep):
     _rfr.run_front(prog, rep)
     from ..rules import r_io as _rio8
     _rio8.run_append(prog, rep)
+    _rio8.run_type_gate(prog, rep)
+    _rio8.run_rank_gate(prog, rep)
